@@ -200,6 +200,9 @@ func errClass(err error, isNotEnough func(error) bool) string {
 		return "err:notexist"
 	case isNotEnough != nil && isNotEnough(err):
 		return "err:notenough"
+	case strings.Contains(err.Error(), "singular"):
+		// the linear system of the recovery blocks in use is singular: the one failure the properties permit
+		return "err:singular"
 	}
 	return "err:other"
 }
